@@ -488,6 +488,71 @@ pub fn ep_two_sliders_family(fitting: bool) -> ListFamily {
     ListFamily { label: format!("en-passant family with two enemy sliders aligned with the capturing side's king ({})", if fitting { "rooks / queens on its rank and file, bishops / queens on its diagonals" } else { "every slider kind on every aligned square" }), items }
 }
 
+/// En-passant family with two sliders of the CAPTURING side aligned with the pusher's king: the capture can
+/// uncover two sliders at once (through the capturing pawn's source square and through the captured pawn's
+/// square).  The pusher's king anywhere, the sliders on squares aligned with it (fitting kinds), the capturing
+/// side's king on the first square of a fixed list that gives a valid position.
+pub fn ep_discoverers_family() -> ListFamily {
+    use rayon::prelude::*;
+    let jobs: Vec<(Col, i8, i8, u8)> = [Col::W, Col::B].into_iter().flat_map(|c| (0..8i8).flat_map(move |f| [-1i8, 1].into_iter().flat_map(move |d| (0..64u8).map(move |k| (c, f, d, k))))).collect();
+    let items: Vec<RefPos> = jobs
+        .par_iter()
+        .flat_map_iter(|(pusher, f, d, ksq)| {
+            let mut out = vec![];
+            if !(0..8).contains(&(f + d)) {
+                return out;
+            }
+            let me = pusher.flip();
+            let r = pusher.dp_rank();
+            let mut base = RefPos::empty();
+            base.stm = me;
+            base.put(sq(*f, r), Kind::P, *pusher);
+            base.put(sq(f + d, r), Kind::P, me);
+            if !place(&mut base, *ksq, Kind::K, *pusher) {
+                return out;
+            }
+            base.dp = *f;
+            let mut opts: Vec<(Sq, Kind)> = vec![];
+            for s in 0..64u8 {
+                if s == *ksq || base.bd[s as usize] != 0 {
+                    continue;
+                }
+                let (df, dr) = (file_of(s) - file_of(*ksq), rank_of(s) - rank_of(*ksq));
+                let orth = df == 0 || dr == 0;
+                let diag = df.abs() == dr.abs();
+                if !orth && !diag {
+                    continue;
+                }
+                for k in [Kind::R, Kind::B, Kind::Q] {
+                    if (k == Kind::R && !orth) || (k == Kind::B && !diag) {
+                        continue;
+                    }
+                    opts.push((s, k));
+                }
+            }
+            for i in 0..opts.len() {
+                for j in (i + 1)..opts.len() {
+                    if opts[i].0 == opts[j].0 {
+                        continue;
+                    }
+                    let mut p = base;
+                    p.put(opts[i].0, opts[i].1, me);
+                    p.put(opts[j].0, opts[j].1, me);
+                    for ok in [63u8, 56, 7, 0, 60, 4, 39, 32] {
+                        let mut q = p;
+                        if place(&mut q, ok, Kind::K, me) && q.is_valid() {
+                            out.push(q);
+                            break;
+                        }
+                    }
+                }
+            }
+            out
+        })
+        .collect();
+    ListFamily { label: "en-passant family with two sliders of the capturing side aligned with the pusher's king (double discovered checks by the capture)".into(), items }
+}
+
 /// Castling family: the side to move has king and rook(s) at home with a non-empty rights subset;
 /// enemy king anywhere; `extras` further men (any kind, either colour, anywhere).
 pub struct CastleFamily {
